@@ -5,9 +5,18 @@
   (2) The component-level semantics commutes with every injective renaming ρ of path components, including renamings
       that make a sibling's name a raw string prefix or substring of another's.
   Consequently verdicts, violating sets, layer attribution and plot labels are invariant up to the renaming.
+  (3) The CODE MODEL itself commutes with the renaming for ALL rules with well-formed identifiers — related
+      (ancestor / descendant) subjects and objects, batches, `anything` with its parent/sub-module de-duplication,
+      names that do not exist (`model_verdict_ren_all`, `model_report_ren`, `model_atoms_ren`): the graph of the renamed
+      architecture is the image of the original graph and every search, query, bucket and report line is mapped.
 -/
 import Bridge.Abs
+import Bridge.Rename
 import PtaProofs.Lemmas.Rename
+import PtaProofs.Lemmas.RenameModel
+import PtaProofs.Lemmas.RenameBuild
+import PtaProofs.Lemmas.RenameNames
+import PtaProofs.Lemmas.RenameLabel
 namespace Pta.C14
 open Pta PtaSpec
 
@@ -65,8 +74,142 @@ theorem layerOf_ren (ρ : Comp → Comp) (hρ : GoodRen ρ) (m : List (Str × Li
     LayerMap.layerOf (m.map fun l => (l.1, l.2.map render)) (render n) :=
   Pta.layerOf_ren_lemma ρ hρ m n hm hn
 
-/-! non-vacuity: an adversarial renaming is admissible -/
+/-! ### (3) the code model, all rules -/
+
+/-- the graph built for the renamed architecture is the image of the original graph: same node order, same edge
+    records, every name renamed (an exact equality of the two data structures) -/
+theorem graph_ren (ρ : Comp → Comp) (hρ : GoodRen ρ) (a : Arch) (hwf : a.wf = true) :
+    archGraph (renArch ρ a) = mapGraph (renStr ρ) (archGraph a) :=
+  Pta.RM.archGraph_ren hρ a hwf
+
+/-- Target A, verdict: for EVERY rule with well-formed identifiers (no strictness, names need not exist) the verdict
+    class — pass / fail / which error — of the code model is invariant under the renaming -/
+theorem model_verdict_ren_all (mt : Str → Str → Bool) (ρ : Comp → Comp) (hρ : GoodRen ρ) (a : Arch) (hwf : a.wf = true)
+    (r : RuleSpec) (hr : ruleWF r = true) :
+    verdictOf mt (archGraph (renArch ρ a)) (compile (renRule ρ r)) = verdictOf mt (archGraph a) (compile r) :=
+  Pta.RM.model_verdict_ren_all_lemma mt ρ hρ a hwf r hr
+
+/-- Target A, report: the full outcome of `assert_applies` on the renamed inputs is the original outcome with every
+    module name in every report line renamed component-wise (same lines, same order, same error kind) -/
+theorem model_report_ren (mt : Str → Str → Bool) (ρ : Comp → Comp) (hρ : GoodRen ρ) (a : Arch) (hwf : a.wf = true)
+    (r : RuleSpec) (hr : ruleWF r = true) :
+    (assertApplies mt (compile (renRule ρ r)) (archGraph (renArch ρ a))).2 =
+      (assertApplies mt (compile r) (archGraph a)).2.mapId (renDotted ρ) :=
+  Pta.RM.model_report_ren_plain_lemma mt ρ hρ a hwf r hr
+
+/-- … together with the rewritten rule object (`_convert_aliases` with its parent / sub-module de-duplication
+    commutes with the renaming); `renStr ρ` is `renDotted ρ` on well-formed dotted names (`renStr_agrees`) -/
+theorem model_outcome_ren (mt : Str → Str → Bool) (ρ : Comp → Comp) (hρ : GoodRen ρ) (a : Arch) (hwf : a.wf = true)
+    (r : RuleSpec) (hr : ruleWF r = true) :
+    assertApplies mt (compile (renRule ρ r)) (archGraph (renArch ρ a)) =
+      ((assertApplies mt (compile r) (archGraph a)).1.mapId (renStr ρ),
+       (assertApplies mt (compile r) (archGraph a)).2.mapId (renStr ρ)) :=
+  Pta.RM.model_report_ren_lemma mt ρ hρ a hwf r hr
+
+/-- the reported atoms (import lines, (subject, object) pairs of "does not import" lines) correspond one to one -/
+theorem model_atoms_ren (mt : Str → Str → Bool) (ρ : Comp → Comp) (hρ : GoodRen ρ) (a : Arch) (hwf : a.wf = true)
+    (r : RuleSpec) (hr : ruleWF r = true) (items : List Item)
+    (h : (assertApplies mt (compile r) (archGraph a)).2 = .fail items) :
+    ∃ items', (assertApplies mt (compile (renRule ρ r)) (archGraph (renArch ρ a))).2 = .fail items' ∧
+      items'.flatMap Item.atoms = (items.flatMap Item.atoms).map (Atom.mapId (renDotted ρ)) :=
+  Pta.RM.model_atoms_ren_lemma mt ρ hρ a hwf r hr items h
+
+/-- every module name occurring in a report is a well-formed dotted name, so the renaming of a report is the
+    plain component-wise one -/
+theorem report_names_wf (mt : Str → Str → Bool) (a : Arch) (hwf : a.wf = true) (r : RuleSpec) (hr : ruleWF r = true) :
+    ∀ s ∈ (assertApplies mt (compile r) (archGraph a)).2.names, nameWF (splitDots s) = true :=
+  Pta.RM.report_names_wf_lemma mt a hwf r hr
+
+/-- the guarded string renaming agrees with the plain one on well-formed dotted names, is `render ∘ renName ρ` on
+    rendered names, and is injective on all strings -/
+theorem renStr_agrees (ρ : Comp → Comp) (hρ : GoodRen ρ) :
+    (∀ s, nameWF (splitDots s) = true → renStr ρ s = renDotted ρ s) ∧
+    (∀ n, nameWF n = true → renStr ρ (render n) = render (renName ρ n)) ∧
+    (∀ x y, renStr ρ x = renStr ρ y → x = y) :=
+  ⟨fun s h => by simp only [renStr, renDotted, h, if_true], Pta.RM.renStr_render ρ, Pta.RM.renStr_inj hρ⟩
+
+/-- the generic fact behind (3): `assert_applies` commutes with EVERY injective map of node names that preserves
+    the strict-sub-module test among the subject identifiers, on every graph and every regex-free rule object -/
+theorem model_iso (φ : Str → Str) (hφ : ∀ x y, φ x = φ y → x = y) (mt : Str → Str → Bool) (g : PGraph Str) (s : RuleState)
+    (hreg : Pta.RM.cfgNoRegex s.cfg) (hsub : Pta.RM.cfgSubOK φ s.cfg) :
+    assertApplies mt (s.mapId φ) (mapGraph φ g) =
+      ((assertApplies mt s g).1.mapId φ, (assertApplies mt s g).2.mapId φ) :=
+  Pta.RM.assertApplies_map φ hφ mt g s hreg hsub
+
+/-! ### Target B: plot labels and the internal / external classification -/
+
+/-- plot labels of the renamed modules with the renamed alias table: the alias text is kept, the components that
+    remain below the aliased ancestor are renamed (`labelWith id` is the documented label, `labelWith_id`) -/
+theorem labels_ren (ρ : Comp → Comp) (hρ : GoodRen ρ) (nodes : List Name) (al : Aliases)
+    (hn : ∀ n ∈ nodes, nameWF n = true) (hk : (al.map (·.1)).Nodup) (hex : ∀ a ∈ al, a.1 ∈ nodes) :
+    plotLabels ((nodes.map (renName ρ)).map render) ((renAliases ρ al).map fun a => (render a.1, a.2)) =
+      .ok (nodes.map fun n => (render (renName ρ n), labelWith (renName ρ) al n)) ∧
+    plotLabels (nodes.map render) (al.map fun a => (render a.1, a.2)) =
+      .ok (nodes.map fun n => (render n, labelWith id al n)) := by
+  refine ⟨Pta.RM.labels_ren_lemma ρ hρ nodes al hn hk hex, ?_⟩
+  rw [Pta.labels_spec_lemma nodes al hn hk hex]
+  simp only [Pta.RM.labelWith_id]
+
+/-- the documented label commutes with the renaming -/
+theorem label_ren (ρ : Comp → Comp) (hρ : GoodRen ρ) (al : Aliases) (n : Name) :
+    PtaSpec.label (renAliases ρ al) (renName ρ n) = labelWith (renName ρ) al n ∧ PtaSpec.label al n = labelWith id al n :=
+  ⟨Pta.RM.label_ren hρ al n, (Pta.RM.labelWith_id al n).symm⟩
+
+/-- internal / external classification (`isInternal`, used by the scan to split imports) is invariant -/
+theorem isInternal_ren (ρ : Comp → Comp) (hρ : GoodRen ρ) (n p : Name) (hn : nameWF n = true) (hp : nameWF p = true) :
+    isInternal (render (renName ρ n)) (render (renName ρ p)) = isInternal (render n) (render p) :=
+  Pta.RM.isInternal_ren_lemma ρ hρ n p hn hp
+
+/-! ### non-vacuity: an adversarial renaming is admissible, and the hypotheses are met by non-strict rules -/
+
+/-- `x ↦ a`, `y ↦ ab` (a sibling becomes a raw string prefix of the other), everything else gets a `z` in front -/
 def advRen : Comp → Comp := fun c => if c = "x".toList then "a".toList else if c = "y".toList then "ab".toList else 'z' :: c
 example : renName advRen [["p".toList], ["x".toList]].head! = ["zp".toList] := by decide
+
+theorem advRen_good : GoodRen advRen := by
+  constructor
+  · intro c d h
+    unfold advRen at h
+    by_cases c1 : c = "x".toList <;> by_cases c2 : c = "y".toList <;> by_cases d1 : d = "x".toList <;>
+      by_cases d2 : d = "y".toList <;> simp_all
+  · intro c h
+    unfold advRen
+    by_cases c1 : c = "x".toList
+    · simp only [c1, if_true]; decide
+    · by_cases c2 : c = "y".toList
+      · simp only [c2]; decide
+      · simp only [c1, c2, if_false]
+        rw [Pta.compWF_iff] at h ⊢
+        refine ⟨by simp, ?_⟩
+        intro hm
+        rcases List.mem_cons.1 hm with h' | h'
+        · cases h'
+        · exact h.2 h'
+
+def nm (s : String) : Name := splitDots s.toList
+def exA : Arch :=
+  { nodes := ["p", "p.x", "p.x.u", "p.y", "q"].map nm, imports := [(nm "p.x.u", nm "p.y"), (nm "p.y", nm "q"), (nm "q", nm "p.x")] }
+/-- `anything` with related subjects (a module, one of its sub modules, and "sub modules of" their common parent) -/
+def exR : RuleSpec :=
+  { verb := .shouldNot, importDir := true, exc := false, anything := true, objects := [],
+    subjects := [.named (nm "p.x"), .named (nm "p.x.u"), .subOf (nm "p")] }
+/-- related subject and object, batch of objects, "be imported by" -/
+def exR' : RuleSpec :=
+  { verb := .shouldOnly, importDir := false, exc := false,
+    subjects := [.named (nm "p.x"), .subOf (nm "p")], objects := [.named (nm "p.x.u"), .named (nm "q")] }
+example : exA.wf = true ∧ ruleWF exR = true ∧ exR.strict = false ∧ ruleWF exR' = true ∧ exR'.strict = false := by decide
+example : (assertApplies (fun _ _ => false) (compile exR) (archGraph exA)).2 = .fail [.imp "p.y".toList "q".toList false] ∧
+    (assertApplies (fun _ _ => false) (compile (renRule advRen exR)) (archGraph (renArch advRen exA))).2 =
+      .fail [.imp "zp.ab".toList "zq".toList false] := by decide
+set_option maxRecDepth 8000 in
+example : (assertApplies (fun _ _ => false) (compile exR') (archGraph exA)).2 =
+      .fail [.miss false ⟨false, "p.x".toList⟩ [⟨false, "p.x.u".toList⟩] true] ∧
+    (assertApplies (fun _ _ => false) (compile (renRule advRen exR')) (archGraph (renArch advRen exA))).2 =
+      .fail [.miss false ⟨false, "zp.a".toList⟩ [⟨false, "zp.a.zu".toList⟩] true] := by decide
+/-- labels: `p.ab` (renamed `p.y`) keeps its name although `p.a` (renamed `p.x`) has an alias -/
+example : plotLabels (([nm "p", nm "p.x", nm "p.y", nm "p.x.u"].map (renName advRen)).map render)
+      ((renAliases advRen [(nm "p.x", "A".toList)]).map fun a => (render a.1, a.2)) =
+    .ok [("zp".toList, "zp".toList), ("zp.a".toList, "A".toList), ("zp.ab".toList, "zp.ab".toList), ("zp.a.zu".toList, "A.zu".toList)] := by
+  rfl
 
 end Pta.C14
